@@ -26,7 +26,7 @@ from .c09 import (_cloud, _lattice, _distinct_values, _fix_weights, _cd, _cdl, _
 ID = "C10"
 PROPS_FILE = "Props/C10.v"
 IMPORTS = "From Verde Require Import Lib.QList Model.BlockReduce Model.Weights Model.BlockGeo."
-SHARD = 40
+SHARD = 34
 RULE = ("every case of every stream configures the estimator by one of five routes in fixed shares (one fifth each, cycling in generation "
         "order): constructor arguments; construction with deliberately different options followed by set_params(**all options); the same "
         "followed by plain attribute assignment of every option; sklearn.base.clone of a configured instance; construction with one or two "
